@@ -476,6 +476,11 @@ def _classify(an: Analysis, module, name, value, cls):
         if text in ('os.environ.get', 'os.getenv', 'environ.get', 'getenv'):
             return 'ok', 'a string from the process environment (immutable)'
         if short_name in _STR_METHODS and isinstance(value.func, ast.Attribute) and \
+                isinstance(value.func.value, ast.Call) and _classify(
+                    an, module, name, value.func.value, cls)[1] in (
+                    'immutable value', 'a string from the process environment (immutable)'):
+            return 'ok', 'immutable value'  # a string method applied to such a string
+        if short_name in _STR_METHODS and isinstance(value.func, ast.Attribute) and \
                 isinstance(value.func.value, (ast.Name, ast.Constant)):
             # a string method applied to a module level string
             inner = value.func.value
